@@ -193,33 +193,37 @@ auto cls_of(etl::errc e) -> int
 
 // ---------------------------------------------------------------------------------------------- statistics
 struct Local {
-    std::uint64_t total{0}, okc{0}, inv{0}, rng{0}, sign{0}, plus{0}, ws{0}, tail{0}, limit{0}, highByte{0}, leadZero{0}, empty{0}, upper{0}, nonDec{0};
+    std::uint64_t total{0}, okc{0}, inv{0}, rng{0}, sign{0}, plus{0}, ws{0}, tail{0}, limit{0}, highByte{0}, leadZero{0}, empty{0}, upper{0}, nonDec{0}, ntEnum{0};
 };
 Local g_loc;
 struct Meta { // what the generator knows about a string (labels + non-trivial rule)
     bool validDigit{false}, sign{false}, plus{false}, ws{false}, tail{false}, limit{false}, highByte{false}, leadZero{false}, upper{false};
+    bool countNt{true}; // false: non-trivial by the rule, but possibly produced by another enumeration as well (not counted twice)
 };
-void flush_stats()
+void flush_stats(char const* src)
 {
-    auto put = [](char const* n, std::uint64_t hit, std::uint64_t of) {
+    // one histogram per case source (short = all short strings, window = integers around the limits, grammar = random
+    // strings): generator health is read from the grammar rows
+    auto put = [src](char const* n, std::uint64_t hit, std::uint64_t of) {
         if (of == 0) { return; }
-        auto& c = vf::stats().classes[n];
+        auto& c = vf::stats().classes[std::string("parse.") + src + "." + n];
         c.first += hit;
         c.second += of;
     };
-    put("parse.oracle_ok", g_loc.okc, g_loc.total);
-    put("parse.oracle_invalid", g_loc.inv, g_loc.total);
-    put("parse.oracle_out_of_range", g_loc.rng, g_loc.total);
-    put("parse.minus_sign", g_loc.sign, g_loc.total);
-    put("parse.plus_sign", g_loc.plus, g_loc.total);
-    put("parse.leading_whitespace", g_loc.ws, g_loc.total);
-    put("parse.garbage_tail", g_loc.tail, g_loc.total);
-    put("parse.at_limit_pm_one_unit_or_digit", g_loc.limit, g_loc.total);
-    put("parse.byte_ge_0x80", g_loc.highByte, g_loc.total);
-    put("parse.leading_zeros", g_loc.leadZero, g_loc.total);
-    put("parse.empty_or_no_digits", g_loc.empty, g_loc.total);
-    put("parse.upper_case_digits", g_loc.upper, g_loc.total);
-    put("parse.base_not_10", g_loc.nonDec, g_loc.total);
+    put("oracle_ok", g_loc.okc, g_loc.total);
+    put("oracle_invalid", g_loc.inv, g_loc.total);
+    put("oracle_out_of_range", g_loc.rng, g_loc.total);
+    put("minus_sign", g_loc.sign, g_loc.total);
+    put("plus_sign", g_loc.plus, g_loc.total);
+    put("leading_whitespace", g_loc.ws, g_loc.total);
+    put("garbage_tail", g_loc.tail, g_loc.total);
+    put("at_limit_pm_one_unit_or_digit", g_loc.limit, g_loc.total);
+    put("byte_ge_0x80", g_loc.highByte, g_loc.total);
+    put("leading_zeros", g_loc.leadZero, g_loc.total);
+    put("empty_or_no_digits", g_loc.empty, g_loc.total);
+    put("upper_case_digits", g_loc.upper, g_loc.total);
+    put("base_not_10", g_loc.nonDec, g_loc.total);
+    vf::nontrivial_count(g_loc.ntEnum);
     g_loc = Local{};
 }
 int g_lastCls = Ok; // oracle class of the case just executed (for the statistics)
@@ -475,7 +479,7 @@ auto run_case(Case const& k) -> std::string
 }
 
 // executes one case inside the run; returns false after a mismatch (memory-only mode keeps going)
-void exec(Case const& k, Meta const& m)
+void exec(Case const& k, Meta const& m, bool enumerated)
 {
     char const* sub = sub_of(k.fn);
     vf::Flight<Case> fl(sub, k);
@@ -496,12 +500,17 @@ void exec(Case const& k, Meta const& m)
     g_loc.empty += !m.validDigit;
     g_loc.upper += m.upper;
     g_loc.nonDec += k.base != 10;
-    if (m.validDigit && (m.sign || m.plus || m.ws || m.limit || m.tail)) {
-        auto h = vf::fnv(k.fn);
-        h      = vf::fnv(k.ty, h);
-        h      = vf::mix(h, k.base);
-        h      = vf::fnv(k.s, h);
-        vf::nontrivial(h);
+    if (m.countNt && m.validDigit && (m.sign || m.plus || m.ws || m.limit || m.tail)) {
+        if (enumerated) {
+            ++g_loc.ntEnum; // enumerations never repeat a case: counted, not hashed
+        } else {
+            auto h = vf::fnv(k.fn);
+            h      = vf::fnv(k.ty, h);
+            h      = vf::mix(h, k.base);
+            h      = vf::fnv(k.s, h);
+            // thorough tier: keep one digest in four (the distinct count becomes a lower bound; keeps the fragments small)
+            if (!vf::ctx().thorough() || (h & 3U) == 0) { vf::nontrivial(h); }
+        }
         if (m.limit && (m.tail || m.ws)) {
             vf::sample(sub, [&] { return k.fn + (k.ty == "-" ? "" : "<" + k.ty + ">") + "(" + vis(k.s) + ", base " + std::to_string(k.base) + ") oracle class: " + cls_names[g_lastCls]; });
         }
@@ -693,6 +702,9 @@ auto gen_case(vf::Rng& rng, Meta& m) -> Case
     m.tail       = !tail.empty();
     m.leadZero   = !zeros.empty();
     m.upper      = casing != 0 && rbase > 10;
+    // a bare "-?digits" string (optionally followed by one blank) can also come out of the limit-window enumeration,
+    // where it is counted: only decorated strings enter the distinct non-trivial count of the grammar
+    m.countNt = !ws.empty() || m.plus || !zeros.empty() || !prefix.empty() || tail.size() > 1 || (tail.size() == 1 && tail[0] != ' ');
     return k;
 }
 
@@ -704,9 +716,9 @@ void grammar(vf::Ctx& c)
     for (std::uint64_t i = 0; i < per; ++i) {
         Meta m;
         Case k = gen_case(rng, m);
-        exec(k, m);
+        exec(k, m, false);
     }
-    flush_stats();
+    flush_stats("grammar");
 }
 
 // ---------------------------------------------------------------------------------------------- exhaustive: short strings
@@ -748,6 +760,8 @@ void short_strings(vf::Ctx& c)
             m.tail       = m.validDigit && (s.back() == 'x' || s.back() == 'z' || s.back() == ' ' || s.back() == '\x80' || s.back() == '-' || s.back() == '+');
             m.highByte   = s.find('\x80') != std::string::npos;
             m.leadZero   = p + 1 < s.size() && s[p] == '0';
+            // the limit windows below produce "-?digits" with an optional ' ' or '~' behind: count a short string only if it cannot be one of those
+            m.countNt = m.ws || m.plus || (m.tail && s.back() != ' ');
             for (auto const& t : targets) {
                 bool const isAto = std::string(t.fn).rfind("ato", 0) == 0;
                 bool const cfam  = std::string(t.ty) == "-";
@@ -756,12 +770,12 @@ void short_strings(vf::Ctx& c)
                     if (base == 0 && !cfam) { continue; }
                     if (base == 8 && !cfam) { continue; }
                     Case k{t.fn, t.ty, base, s};
-                    exec(k, m);
+                    exec(k, m, true);
                 }
             }
         }
     }
-    flush_stats();
+    flush_stats("short");
 }
 
 // ---------------------------------------------------------------------------------------------- exhaustive: windows around the limits, every base
@@ -784,7 +798,7 @@ void limit_windows(vf::Ctx& c)
                 k.s += (v & 8) ? " " : "~"; // a tail behind the number
                 m.tail = true;
             }
-            exec(k, m);
+            exec(k, m, true);
         }
     };
     // the eleven integer types through from_chars and to_integer
@@ -820,7 +834,7 @@ void limit_windows(vf::Ctx& c)
             if (t.mn < 0) { window(fn, "-", t, base, -w, w); }
         }
     }
-    flush_stats();
+    flush_stats("window");
 }
 
 auto parse_case(std::string const& cs, Case& k) -> bool
@@ -840,7 +854,6 @@ void vf_run(vf::Ctx& c)
     short_strings(c);
     limit_windows(c);
     grammar(c);
-    flush_stats();
 }
 
 std::string vf_replay(std::string const& sub, std::string const& cs)
